@@ -1465,6 +1465,9 @@ impl Machine {
             let j = crate::crash::match_commit_point(self.db.as_ref().unwrap(), &cands)?;
             self.commits.truncate(j + 1);
             self.d = j;
+            // savepoints of commit points that turned out not to exist never existed
+            let ever: BTreeSet<u64> = self.commits.iter().flat_map(|c| c.psp.keys().copied()).collect();
+            self.sps.retain(|sp| sp.persistent.is_none_or(|id| ever.contains(&id)));
             for sp in &mut self.sps {
                 if let Some(id) = sp.persistent
                     && !self.commits[j].psp.contains_key(&id)
@@ -1494,16 +1497,18 @@ impl Machine {
 
     fn op_compact(&mut self, r: &mut Rec) -> R {
         self.finish_txn_for_db_op()?;
+        // half of the runnable compactions are measured "at rest": clean close + open before
+        // (the close trims allocation slack), compact, clean close after
+        let at_rest = r.u8() % 2 == 0 && self.last().psp.is_empty() && !self.sps.iter().any(|s| s.handle.is_some()) && self.readers.is_empty();
+        if at_rest {
+            self.op_reopen()?;
+        }
+        // (after the reopen: under fault injection it can settle which commit point is current)
         let persistent = !self.last().psp.is_empty();
         let eph_valid = self.sps.iter().any(|s| s.handle.is_some() && !s.invalid);
         let eph_any = self.sps.iter().any(|s| s.handle.is_some());
         let readers = !self.readers.is_empty();
-        // half of the runnable compactions are measured "at rest": clean close + open before
-        // (the close trims allocation slack), compact, clean close after
-        let at_rest = r.u8() % 2 == 0 && !persistent && !eph_any && !readers;
-        if at_rest {
-            self.op_reopen()?;
-        }
+        let at_rest = at_rest && !persistent;
         // With non-durable commits pending the file does not yet hold the data, so its length
         // before the call is not comparable; sizes are compared only when everything is durable
         let all_durable = self.d == self.commits.len() - 1;
@@ -1517,6 +1522,7 @@ impl Machine {
         tr!(self, "compact() -> {res:?}");
         match res {
             Ok(_) => {
+                sensure!(!(self.fault_mode && self.surfaced), "write-accepted-after-io-error", "compact() ran although a storage error had been reported and the database was not reopened");
                 sensure!(!persistent && !eph_valid && !readers && !eph_any, "compact-not-refused", "compact() ran although persistent savepoints={persistent} ephemeral savepoints={eph_any} readers={readers} exist");
                 self.d = self.commits.len() - 1;
                 self.capture_image("after compaction");
@@ -1527,11 +1533,14 @@ impl Machine {
                     // close trims it (see DESIGN.md section 7)
                     self.classes.push("in-flight length larger after compact() (slack, trimmed by close)");
                 }
-                if at_rest {
+                let fired = self.fault_mode && self.backend.lock().fault_fired;
+                if at_rest && !fired {
                     // the notion upstream's regression test uses: lengths of cleanly closed files
                     self.op_reopen()?;
                     let rest_after = self.backend.lock().live.len();
-                    if rest_after > len_before && rest_after <= 2 * len_before && !self.strict {
+                    if self.fault_mode && self.backend.lock().fault_fired {
+                        // the close itself may have been hit by the injected fault: not comparable
+                    } else if rest_after > len_before && rest_after <= 2 * len_before && !self.strict {
                         // known finding C13/compact-at-rest-growth-within-doubling: excluded by
                         // construction (counted); anything beyond a doubling is still reported
                         self.excluded_known += 1;
@@ -1546,6 +1555,11 @@ impl Machine {
                 self.verify_committed()?;
             }
             Err(CompactionError::Storage(e)) => return Err(Stop::Io(format!("compact: {e:?}"))),
+            Err(_) if self.fault_mode && (self.surfaced || self.uncertain) => {
+                // after a reported storage error any refusal is acceptable (C08 only requires that
+                // nothing is written); the reason oracle belongs to healthy databases (C13)
+                self.backend.mark(self.d, self.commits.len() - 1, "idle");
+            }
             Err(e) => {
                 let holds = match &e {
                     CompactionError::PersistentSavepointExists => persistent,
@@ -1660,6 +1674,8 @@ impl Machine {
                 return Err(Failure::new(format!("panic:{}", normalize_sig(&p)), format!("panic while dropping a write transaction after a storage error: {p}")));
             }
             self.backend.mark(self.d, self.commits.len() - 1, "idle");
+            let ever: BTreeSet<u64> = self.commits.iter().flat_map(|c| c.psp.keys().copied()).collect();
+            self.sps.retain(|sp| sp.persistent.is_none_or(|id| ever.contains(&id)));
         }
         Ok(())
     }
